@@ -72,6 +72,34 @@ DEFOP(parse) {
     w.log.add("parse entry " + I(entry) + " flags " + I(flags) + " len " + I((int64_t)text.size()) + " -> s" + I(slot) + " " + mv_dump(v, 60));
 }
 
+// a malformed (truncated / damaged) text parsed with return_parse_end: the reported end is part of the task's trace (C20).
+// The global error pointer is never consulted.
+DEFOP(parse_bad) {
+    Rng vr((uint64_t)st.A(0)), sr((uint64_t)st.A(1));
+    GenOpts go = profile_opts(5);
+    go.allow_raw = false; go.allow_nonfinite = false;
+    MVal *v = gen_value(vr, go);
+    SpellOpts so; so.ws = 1;
+    std::string text = serialize_value(v, sr, so);
+    mv_free(v);
+    uint64_t x = (uint64_t)st.A(3), y = (uint64_t)st.A(4);
+    switch ((uint64_t)st.A(2) % 3) {
+        case 0: text.resize((size_t)(x % (text.size() + 1))); break;
+        case 1: if (!text.empty()) text[x % text.size()] = "]}[{,:\"x"[y % 8]; break;
+        default: text.insert(x % (text.size() + 1), 1, "]}[{,:\"\\"[y % 8]); break;
+    }
+    bool lengthapi = st.A(2) & 4;
+    std::string bytes = text;
+    if (!lengthapi || (y & 16)) bytes.push_back('\0');
+    InputView in = present_input(bytes, true);
+    const char *end = nullptr;
+    cJSON *r = lengthapi ? cJSON_ParseWithLengthOpts(in.ptr, in.n, &end, (cJSON_bool)((y >> 5) & 1)) : cJSON_ParseWithOpts(in.ptr, &end, (cJSON_bool)((y >> 5) & 1));
+    long off = end ? (long)(end - in.ptr) : -1;
+    release_input(in);
+    if (r) cJSON_Delete(r);
+    w.log.add(std::string("parse_bad -> ") + (r ? "tree" : "NULL") + " end offset " + I(off) + " of " + I((int64_t)bytes.size()));
+}
+
 // ------------------------------------------------------------------ plain print (stage-setting / trace)
 static const int PREBUF[] = {0, 1, 2, 3, 5, 8, 16, 64, 255, 256, 257, 1000};
 DEFOP(print) {
@@ -126,6 +154,32 @@ DEFOP(build_deep) {
     w.slots[slot] = m;
     w.stats.probes["deep_tree_built"]++;
     w.log.add("build_deep depth " + I(depth) + " kind " + I(kind) + " -> s" + I(slot));
+}
+
+DEFOP(build_wide) {
+    // shallow but wide: many empty (or tiny) containers side by side, e.g. 1200 empty objects in one array
+    int slot = w.free_slot();
+    if (slot < 0) { w.noop(st, "no free slot"); return; }
+    static const int widths[] = {300, 999, 1000, 1001, 1500, 2500};
+    int n = widths[(uint64_t)st.A(0) % 6];
+    int kind = (int)((uint64_t)st.A(1) % 4);  // 0: {} , 1: [] , 2: alternating, 3: {"k":{}} members of an object
+    bool outer_obj = kind == 3;
+    cJSON *root = outer_obj ? cJSON_CreateObject() : cJSON_CreateArray();
+    MVal *m = mv_new(outer_obj ? T_OBJECT : T_ARRAY);
+    if (!root) { mv_free(m); w.noop(st, "alloc"); return; }
+    for (int i = 0; i < n; i++) {
+        bool obj = kind == 0 || kind == 3 || (kind == 2 && (i & 1));
+        cJSON *c = obj ? cJSON_CreateObject() : cJSON_CreateArray();
+        if (!c) break;
+        MVal *k = mv_new(obj ? T_OBJECT : T_ARRAY);
+        if (outer_obj) { std::string key = "k" + std::to_string(i); cJSON_AddItemToObject(root, key.c_str(), c); k->keystate = K_KNOWN; k->key = key; }
+        else cJSON_AddItemToArray(root, c);
+        mv_add_kid(m, k, m->kids.size());
+    }
+    m->c = root;
+    w.slots[slot] = m;
+    w.stats.probes["wide_tree_built"]++;
+    w.log.add("build_wide n " + I(n) + " kind " + I(kind) + " -> s" + I(slot));
 }
 
 // ------------------------------------------------------------------ C04: print -> parse round trip and fixed point
@@ -272,7 +326,9 @@ DEFOP(capscan) {
         std::string T = t;
         bool seen_true = false;
         size_t first_true = 0;
-        for (size_t n = 0; n <= T.size() + 16; n++) {
+        // every n for ordinary texts; for very long texts (deep formatted trees) every n near both ends and a stride in between
+        size_t stride = T.size() > 4000 ? T.size() / 600 : 1;
+        for (size_t n = 0; n <= T.size() + 16; n += (n < 200 || n + 200 >= T.size()) ? 1 : stride) {
             OutputView ov = present_output(n, (unsigned char)(0xE0 + (n & 7)));
             cJSON_bool ok = cJSON_PrintPreallocated(x->c, ov.ptr, (int)n, fmt);
             w.stats.fault_counts["cap"]++;
